@@ -184,7 +184,11 @@ def helper_case(chk, drv, cname, obj, snap, bound, bname):
     # ---- K: model vs implementation (status, values bit for bit, number truncated)
     if drv is not None:
         rep, line = drv.ask('bounds', spec=spec, v=','.join(case['v']) or '[]')
-        if status == 'ok':
+        if status == 'ok' and expect[0] == 'unjudged' and 'nan' in expect[1]:
+            # a NaN bound is accepted silently and leaves the vector alone (masked assignment) -- outside the property;
+            # an equivalent rewrite with np.clip would return NaN instead, so only the accept/reject status is compared
+            ok = rep['status'] == 'ok'
+        elif status == 'ok':
             ok = rep['status'] == 'ok' and [x for x in dec_list(rep['v'], str)] == case['result']
             if ok and not np.isnan(v64).any() and expect[0] == 'accept':
                 ok = int(rep['truncated']) == int(np.sum(np.asarray(res) != v64))
@@ -213,6 +217,28 @@ def gen_data(rng):
     ds['S'] = (rng.uniform(size=n) < ps).astype(int)
     ds.loc[ds['S'] == 0, ['A', 'Y']] = np.nan
     return {'full': df, 'miss': dm, 'sel': ds, 'n': n}
+
+
+def pack(data):
+    """JSON-able copy of a generated data set (stored in every failing estimator case for replay)"""
+    out = {'n': data['n']}
+    for k in ('full', 'miss', 'sel'):
+        d = data[k]
+        out[k] = {'index': [int(i) for i in d.index], 'columns': {c: [None if (isinstance(x, float) and math.isnan(x))
+                                                                      else float(x) for x in d[c]] for c in d.columns}}
+    return out
+
+
+def unpack(payload):
+    data = {'n': payload['n']}
+    for k in ('full', 'miss', 'sel'):
+        cols = {c: [float('nan') if x is None else x for x in v] for c, v in payload[k]['columns'].items()}
+        df = pd.DataFrame(cols, index=payload[k]['index'])
+        for c in ('A', 'L1', 'S'):
+            if c in df.columns and not df[c].isna().any():
+                df[c] = df[c].astype(int)
+        data[k] = df
+    return data
 
 
 def ref_glm(formula, df):
@@ -549,8 +575,9 @@ def estimator_case(chk, drv, site, runner, cfg, data, U, kind, bound, seed_note)
         chk.d(False, '%s runs with bound=%s (raised %s: %s)' % (site, kind, type(ex).__name__, str(ex)[:120]), case)
         return
     nontriv = (nclipped > 0) == reach
-    chk.case(None, (site, repr(sorted(cfg.items())), kind, seed_note) if nontriv else None,
-             sample=dict(case, estimates=B['est'], unbounded=U['est']) if chk.evals % 61 == 0 else None)
+    chk.case(None, (site, repr(sorted(cfg.items())), kind, seed_note['id']) if nontriv else None,
+             sample=dict(case, data=seed_note['id'], estimates=B['est'], unbounded=U['est'])
+             if chk.evals % 61 == 0 else None)
     chk.count('%s|%s' % (site, kind))
     if not nontriv:
         chk.count('bound_kind_not_as_labelled')
@@ -673,7 +700,7 @@ def estimators(chk, drv, rng, tier):
     ncf = 2 if tier == 'quick' else 6
     for di in range(ndata):
         data = gen_data(rng)
-        note = 'dataset #%d of this seed/tier (n=%d)' % (di, data['n'])
+        note = {'id': 'dataset #%d of this seed/tier (n=%d)' % (di, data['n']), 'frames': pack(data)}
         for site, runner, cells in SITES:
             if site == 'crossfit' and di >= ncf:
                 continue
@@ -681,7 +708,17 @@ def estimators(chk, drv, rng, tier):
                 try:
                     U = runner(data, cfg, False)
                 except Exception as ex:                          # noqa: BLE001
-                    chk.discard('unbounded reference run failed: %s %s' % (site, type(ex).__name__))
+                    import traceback
+                    frames = [f.name for f in traceback.extract_tb(ex.__traceback__)]
+                    if 'probability_bounds' in frames:
+                        # TMLE / StochasticTMLE always truncate (continuous_bound); a helper that cannot take the
+                        # estimator's own fitted values breaks every call
+                        chk.case(None, None)
+                        chk.d(False, '%s runs without a bound (probability_bounds raised %s: %s)'
+                              % (site, type(ex).__name__, str(ex)[:100]), {'site': site, 'cfg': cfg, 'data': note})
+                    else:
+                        chk.discard('unbounded reference run failed outside probability_bounds: %s %s'
+                                    % (site, type(ex).__name__))
                     continue
                 # ---- H: the harness's reference nuisance fit is reproduced by the unbounded run
                 chk.h_checked += 1
@@ -764,8 +801,26 @@ def replay(rec):
             print('   v      =', v)
             print('   result =', out)
             bad += 1
+        elif 'site' in case and isinstance(case.get('data'), dict) and 'frames' in case['data']:
+            import common
+            data = unpack(case['data']['frames'])
+            site = case['site']
+            runner = [r for n, r, _ in SITES if n == site][0]
+            bound = case['bound']
+            if case.get('bound_kind') == 'reached_tuple':
+                bound = tuple(bound)
+            chk = common.Check('C17', 'replay', 0)
+            with common.quiet():
+                U = runner(data, case['cfg'], False)
+                estimator_case(chk, None, site, runner, case['cfg'], data, U, case['bound_kind'], bound, case['data'])
+            print(site, case['cfg'], case['bound_kind'], 'bound =', bound, '| n =', data['n'])
+            print('   unbounded estimates:', U['est'])
+            for g in chk.d_fail:
+                print('   FAILS:', g['what'])
+            if not chk.d_fail:
+                print('   all predicates hold now')
+            bad += bool(chk.d_fail)
         else:
-            print(f.get('what'), '|', {k: v for k, v in case.items()})
-            print('   (estimator case: rerun `VERIF_SEED=%s check.py C17 --tier %s`)' % (rec.get('seed'), rec.get('tier')))
+            print(f.get('what'), '|', {k: v for k, v in case.items() if k != 'data'})
             bad += 1
     return 1 if bad else 0
